@@ -23,8 +23,9 @@ import verilog_oracles as O
 import verilog_mech as M
 import verilog_doc as D
 import verilog_wild as WILD
+import verilog_emit as E
 
-OWN_COQ = ['Fmt/VBits.v', 'Fmt/VExpr.v', 'Fmt/VDoc.v', 'Fmt/VTop.v', 'Fmt/VElab.v', 'Fmt/VSpec.v', 'Fmt/VSem.v', 'Proofs/VerilogLists.v', 'Proofs/VerilogSlice.v',
+OWN_COQ = ['Fmt/VBits.v', 'Fmt/VExpr.v', 'Fmt/VDoc.v', 'Fmt/VTop.v', 'Fmt/VElab.v', 'Fmt/VEmit.v', 'Fmt/VSpec.v', 'Fmt/VSem.v', 'Proofs/VerilogLists.v', 'Proofs/VerilogSlice.v',
            'Proofs/VerilogGrow.v', 'Proofs/VerilogPort.v', 'Proofs/VerilogAssign.v', 'Proofs/VerilogTop.v', 'Proofs/VElabBase.v', 'Proofs/VElabInv.v',
            'Proofs/VElabWf.v', 'Proofs/VElabExpr.v', 'Proofs/VElabConn.v', 'Proofs/VElabAssign.v', 'Proofs/VElabPorts.v', 'Proofs/VElabNets.v',
            'Proofs/VElabTop.v', 'Proofs/VElabStable.v', 'Props/C04.v', 'Props/C06.v', 'Extract/ExtractVerilog.v']
@@ -174,6 +175,8 @@ class Run:
         self.n_programs = 0
         self.reported = 0
         self.notes = []
+        self.emit = {'compared': 0, 'disagreements': 0, 'modules_compared': 0, 'rt_check true': 0, 'rt_check false': 0, 'outcomes': collections.Counter(),
+                     'skipped_outside_modelled_subset': collections.Counter(), 'skipped_not_expressible_as_nv': collections.Counter()}
         self.docq = []          # document-level correspondence: (source, design, real outcome)
         self.doc = {'compared': 0, 'disagreements': 0, 'unsupported': collections.Counter(), 'inexpressible': collections.Counter(),
                     'outcomes': collections.Counter(), 'wild_mutations': collections.Counter()}
@@ -303,6 +306,7 @@ class Run:
                 if o.get('definition_list') == 'work-modules':
                     o['definition_list'] = [d.name for lib in n.libraries if lib.name == 'work' for d in lib.definitions]
                 items, text, n2 = O.c04_items(n, o)
+                E.check(self, source, n, o, items, text, describe)      # writer model (Fmt/VEmit.v) vs Composer
                 self.n_eval += 1
                 self.stats['c04 %s %s' % (tr, ','.join('%s' % k for k in sorted(opts)) or 'default')] += 1
                 if items:
@@ -506,6 +510,11 @@ def run(prop, tier, seed, replay):
             'compared': r.doc['compared'], 'disagreements': r.doc['disagreements'],
             'skipped_outside_modelled_subset': dict(r.doc['unsupported']), 'skipped_not_expressible_as_vdoc': dict(r.doc['inexpressible']),
             'implementation_outcomes': dict(r.doc['outcomes']), 'wild_mutations_applied': dict(sorted(r.doc['wild_mutations'].items()))},
+        'writer_correspondence': {
+            'what': 'C04: every netlist the run writes (generated designs, corpus, bundled files, transforms, options) as an ordered netlist value -> '
+                    'extracted VEmit.emit vs the text of the real Composer read token by token into a vdoc (harness/verilog_emit.py): documents or '
+                    'exception classes compared; rt_check (VEmit.v, proved sound in Props/C04.v) evaluated on each and compared with the real write/read cycle',
+            **{k: (dict(v) if isinstance(v, collections.Counter) else v) for k, v in r.emit.items()}},
         'generator_feature_histogram': dict(sorted(r.feat.items())),
         'outcome_histogram': dict(sorted(r.stats.items())),
         'known_finding_hits': dict(r.known_hits), 'notes': r.notes,
